@@ -215,8 +215,12 @@ func main() {
 		emitWrites(os.Args[2])
 		return
 	}
+	if len(os.Args) == 3 && os.Args[1] == "-state" {
+		emitState(os.Args[2])
+		return
+	}
 	if len(os.Args) != 2 {
-		die("usage: extract_tables [-writes] <repo dir>")
+		die("usage: extract_tables [-writes|-state] <repo dir>")
 	}
 	repo := os.Args[1]
 	lexer := parse(filepath.Join(repo, "lexer.go"))
